@@ -78,10 +78,10 @@ theorem c19_text_new_words_conflict (c : TCfg Wt) (hc : c.Faithful) (H : THeap W
   have tA := lextrack_of_reach (reach_run hc (TTx.start H ia) opsA)
   have tB := lextrack_of_reach (reach_run hc (TTx.start H ib) opsB)
   cases tA with
-  | same a _ => exact absurd a hA
+  | same a _ _ => exact absurd a hA
   | grew a1 a2 =>
     cases tB with
-    | same b _ => exact absurd b hB
+    | same b _ _ => exact absurd b hB
     | grew b1 b2 =>
       apply commitSecondT_none_of_words
       rw [a2, b2]
